@@ -230,6 +230,11 @@ class Models:
         st.probe.append(list(args))
         return None
 
+    x_vf_probe_note_r = x_vf_probe_note
+
+    def x_vf_probe_arg_r(s, st, stack, work, args, ins):
+        return s.x_vf_probe_arg(st, stack, work, args, ins)
+
     def x_vf_probe_arg(s, st, stack, work, args, ins):
         call, k = args
         if not isinstance(call, int) or not isinstance(k, int):
@@ -561,7 +566,7 @@ class Models:
         m = re.match(r'([us](?:add|sub|mul))\.with\.overflow\.i(\d+)', n)
         if m:
             r, o = A.addo(st, m.group(1), args[0], args[1], int(m.group(2))); return Agg([r, o])
-        m = re.match(r'(umax|umin|smax|smin|ctpop|ctlz|cttz|bswap|abs)\.i(\d+)', n)
+        m = re.match(r'(umax|umin|smax|smin|ctpop|ctlz|cttz|bswap|abs|fshl|fshr)\.i(\d+)', n)
         if m:
             return A.intrin_int(st, m.group(1), args, int(m.group(2)))
         if n == 'x86.bmi.pdep.64':
